@@ -31,7 +31,20 @@ func init() {
 
 // ---------------------------------------------------------------- canonical text
 
-func hx(b []byte) string { return hex.EncodeToString(b) }
+func hxFull(b []byte) string { return hex.EncodeToString(b) }
+
+// hx renders a byte string for comparison with ml/resprun.ml: hex, or for strings longer than
+// 256 bytes  #<length>:<FNV-1a 64>  (the length-boundary cases carry arguments of up to MiBs).
+func hx(b []byte) string {
+	if len(b) <= 256 {
+		return hex.EncodeToString(b)
+	}
+	h := uint64(0xcbf29ce484222325)
+	for _, c := range b {
+		h = (h ^ uint64(c)) * 0x100000001b3
+	}
+	return fmt.Sprintf("#%d:%016x", len(b), h)
+}
 
 func unhx(s string) ([]byte, error) {
 	if s == "-" || s == "" {
@@ -241,6 +254,33 @@ func chunkingsFor(spec string, stream []byte, seed uint64, id string) [][]int {
 			sizes = append(sizes, v)
 		}
 		return [][]int{sizes}
+	}
+	if strings.HasPrefix(spec, "x:") {
+		// several explicit chunkings: one | fN (reads of N bytes) | c<size,size,...>, separated by '|'
+		for _, it := range strings.Split(spec[2:], "|") {
+			switch {
+			case it == "one" || n <= 1:
+				out = append(out, []int{n})
+			case strings.HasPrefix(it, "f"):
+				k, _ := strconv.Atoi(it[1:])
+				if k <= 0 {
+					k = 1
+				}
+				var sizes []int
+				for p := 0; p < n; p += k {
+					sizes = append(sizes, k)
+				}
+				out = append(out, sizes)
+			case strings.HasPrefix(it, "c"):
+				var sizes []int
+				for _, p := range strings.Split(it[1:], ",") {
+					v, _ := strconv.Atoi(p)
+					sizes = append(sizes, v)
+				}
+				out = append(out, sizes)
+			}
+		}
+		return out
 	}
 	if spec == "one" || n <= 1 {
 		return [][]int{{n}}
